@@ -487,7 +487,7 @@ func (check typecheck) arrayLitExpr(child []*node, typ *itype) error {
 		n := c
 		switch {
 		case c.kind == keyValueExpr:
-			if err := check.index(c.child[0], length); err != nil {
+			if err := check.index(c.child[0], length); err != nil || !c.child[0].rval.IsValid() {
 				return c.cfgErrorf("index %s must be integer constant", c.child[0].typ.id())
 			}
 			n = c.child[1]
